@@ -34,6 +34,16 @@ type SecWriter struct {
 	Off  int64   `json:"off"`
 	N    int64   `json:"n"` // section length; ignored for "at"
 	Ops  []SecOp `json:"ops"`
+	// Inner, if set, nests the writer: the underlying io.WriterAt of this writer
+	// is itself a SectionWriter [Inner.Off, Inner.Off+Inner.N) over the disk
+	// ("several structures share one file"); Off is then relative to the inner
+	// section and the inner end also bounds every byte.
+	Inner *SecInner `json:"inner,omitempty"`
+}
+
+type SecInner struct {
+	Off int64 `json:"off"`
+	N   int64 `json:"n"`
 }
 
 type SecOp struct {
@@ -101,7 +111,26 @@ func (Section) Generate(seed uint64, tier string) engine.Plan {
 			w.Kind = "at"
 			w.N = 0
 		}
-		if adjacent {
+		if r.Chance(1, 6) {
+			// nested: an outer section (or AtToWriter) over an inner SectionWriter
+			in := &SecInner{Off: w.Off, N: r.PickInt64(1, 16, 100, 100, 4096)}
+			w.Inner = in
+			w.Off = r.PickInt64(0, 0, 1, in.N/2, in.N-1, in.N)
+			room := in.N - w.Off
+			w.N = r.PickInt64(0, 1, 16, room, room, room+5, 2*in.N, room/2)
+			if w.N < 0 {
+				w.N = 0
+			}
+			w.Kind = r.PickStr("section", "section", "at")
+			if w.Kind == "at" {
+				w.N = 0
+			}
+			if adjacent {
+				next = in.Off + in.N
+			} else {
+				next = in.Off + in.N + r.PickInt64(1, 3, 64, 5000)
+			}
+		} else if adjacent {
 			next = w.Off + w.N
 		} else {
 			next = w.Off + w.N + r.PickInt64(1, 3, 64, 5000)
@@ -114,6 +143,14 @@ func (Section) Generate(seed uint64, tier string) engine.Plan {
 		n := w.N
 		if w.Kind == "at" || n == secNoEnd {
 			n = 1 << 40
+		}
+		if w.Inner != nil {
+			if room := w.Inner.N - w.Off; room < n {
+				n = room // the inner end comes first
+				if n < 0 {
+					n = 0
+				}
+			}
 		}
 		for oi := 0; oi < nops; oi++ {
 			var op SecOp
@@ -267,7 +304,11 @@ func (Section) Generate(seed uint64, tier string) engine.Plan {
 		if w.Kind == "at" || n == secNoEnd {
 			n = 5000
 		}
-		p.Capacity = w.Off + r.PickInt64(0, 1, n/2, n-1, n, n+1)
+		absOff := w.Off
+		if w.Inner != nil {
+			absOff += w.Inner.Off
+		}
+		p.Capacity = absOff + r.PickInt64(0, 1, n/2, n-1, n, n+1)
 		if p.Capacity < 0 {
 			p.Capacity = 0
 		}
@@ -296,6 +337,7 @@ func genSchedule(r *engine.PRNG, n int) engine.Schedule {
 // secModel is the reference model of one writer.
 type secModel struct {
 	base, cur, limit int64
+	wlimit           int64 // effective end for bytes: min(limit, end of the inner section if nested)
 	endless          bool
 	sticky           error // the handle's sticky failure, once tripped
 }
@@ -366,20 +408,34 @@ func (Section) Execute(pl engine.Plan, c *engine.RunCtx) *engine.Failure {
 		w := p.Writers[wi]
 		sch.Spawn(func(t *engine.Task) {
 			h := disk.Handle(wi, t.Yield)
-			m := &secModel{base: w.Off, cur: w.Off}
+			// the model works in ABSOLUTE disk offsets
+			var under io.WriterAt = h
+			shift := int64(0)
+			innerEnd := int64(^uint64(0) >> 1)
+			if w.Inner != nil {
+				under = iohelper.NewSectionWriter(h, w.Inner.Off, w.Inner.N)
+				shift = w.Inner.Off
+				innerEnd = w.Inner.Off + w.Inner.N
+				st.Inc("probe.C18.nested_over_a_section")
+			}
+			m := &secModel{base: shift + w.Off, cur: shift + w.Off}
 			var sw *iohelper.SectionWriter
 			var wr io.Writer
 			if w.Kind == "at" {
-				wr = iohelper.AtToWriter(h, w.Off)
+				wr = iohelper.AtToWriter(under, w.Off)
 				m.limit = int64(^uint64(0) >> 1)
 				m.endless = true
 			} else {
-				sw = iohelper.NewSectionWriter(h, w.Off, w.N)
+				sw = iohelper.NewSectionWriter(under, w.Off, w.N)
 				wr = sw
-				m.limit = w.Off + w.N
+				m.limit = shift + w.Off + w.N
 				m.endless = w.N == secNoEnd
 			}
-			owners[wi] = owner{m.base, m.limit}
+			m.wlimit = m.limit
+			if innerEnd < m.wlimit {
+				m.wlimit = innerEnd
+			}
+			owners[wi] = owner{m.base, m.wlimit}
 			payloadBuf := make([]byte, 0, 256)
 			for oi, op := range w.Ops {
 				if fail != nil {
@@ -424,22 +480,22 @@ func (Section) Execute(pl engine.Plan, c *engine.RunCtx) *engine.Failure {
 					}
 					if op.Op == "write" {
 						at = m.cur
-						if m.cur >= m.limit {
-							refused = true
+						if m.cur >= m.wlimit {
+							refused = true // at/after this section's end, or the inner section's
 						} else {
 							mm = int64(op.Len)
-							if mm > m.limit-m.cur {
-								mm = m.limit - m.cur
+							if mm > m.wlimit-m.cur {
+								mm = m.wlimit - m.cur
 							}
 						}
 					} else {
 						at = m.base + op.Rel
-						if op.Rel < 0 || op.Rel >= m.limit-m.base {
+						if op.Rel < 0 || at >= m.wlimit {
 							refused = true
 						} else {
 							mm = int64(op.Len)
-							if mm > m.limit-at {
-								mm = m.limit - at
+							if mm > m.wlimit-at {
+								mm = m.wlimit - at
 							}
 						}
 					}
@@ -457,8 +513,8 @@ func (Section) Execute(pl engine.Plan, c *engine.RunCtx) *engine.Failure {
 							continue // an empty underlying call has no byte to place
 						}
 						lo, hi := rc.Off, rc.Off+int64(rc.Offered)
-						if lo < m.base || hi > m.limit || lo < 0 {
-							fail = engine.Failf("C18.contain", step, "writer %d [%d,%d) offered bytes [%d,%d) to the underlying writer (op %s len=%d rel=%d)", wi, m.base, m.limit, lo, hi, op.Op, op.Len, op.Rel)
+						if lo < m.base || hi > m.wlimit || lo < 0 {
+							fail = engine.Failf("C18.contain", step, "writer %d [%d,%d) let bytes [%d,%d) reach the disk (op %s len=%d rel=%d)", wi, m.base, m.wlimit, lo, hi, op.Op, op.Len, op.Rel)
 							return
 						}
 					}
@@ -518,7 +574,7 @@ func (Section) Execute(pl engine.Plan, c *engine.RunCtx) *engine.Failure {
 					if refused {
 						st.Inc("probe.C18.write_refused_at_limit")
 					}
-					if k > 0 && m.cur == m.limit {
+					if k > 0 && m.cur == m.wlimit {
 						st.Inc("probe.C18.write_ends_exactly_at_limit")
 					}
 				case "seek":
@@ -718,6 +774,17 @@ func (Section) Shrink(pl engine.Plan) []engine.Plan {
 						out = append(out, q)
 					}
 				}
+			}
+		}
+		if w.Inner != nil {
+			q := clone()
+			q.Writers[wi].Off += w.Inner.Off
+			q.Writers[wi].Inner = nil
+			out = append(out, q)
+			if w.Inner.Off != 0 && len(p.Writers) == 1 {
+				q := clone()
+				q.Writers[wi].Inner.Off = 0
+				out = append(out, q)
 			}
 		}
 		if w.Off != 0 {
